@@ -4,10 +4,11 @@
 # Writes /verif/seeded/<ID>-<k>/ {patch.diff, demo.*, notes.md, meta.json} on success.
 ID="$1"; K="$2"
 SRC=/tmp/seed_out/$ID
-WT=/tmp/confirm_wt
-export CARGO_NET_OFFLINE=true CARGO_TARGET_DIR=/tmp/confirm_target
+WT=${CONFIRM_WT:-/tmp/confirm_wt}
+export CARGO_NET_OFFLINE=true CARGO_TARGET_DIR=$WT/target CARGO_BUILD_JOBS=${CONFIRM_JOBS:-8}
 [ -d $WT ] || git -C /repo worktree add -q --detach $WT HEAD || exit 2
 cd $WT && git checkout -q --detach $(git -C /repo rev-parse HEAD) && git checkout -q -- . && git clean -fdq
+cp /repo/Cargo.lock $WT/Cargo.lock
 suite() { cargo test --workspace --no-fail-fast --offline 2>&1 | grep -E "^test |test result" ; }
 summ() { grep -E "^test .*(FAILED|failed)" | grep -v "^test result" | sort | tr '\n' ';'; }
 PATCH=$SRC/patch$K.diff
